@@ -167,8 +167,9 @@ func (c *Ctx) closureRunsUnderLock(cl *ssa.Function, lockPath string) bool {
 }
 
 func c02(c *Ctx) {
+	defer c02writesAreAnnounced(c)
 	P, R := c.P, c.R
-	R.Explain("R02.1", "T-NODROP: no call result of type state.Update / []state.Update in internal/state and internal/backend is discarded (unused tuple component or value without uses).")
+	R.Explain("R02.1", "T-NODROP: no call result of type state.Update / []state.Update in internal/state and internal/backend is discarded (unused tuple component or value without uses), and a result taken from a tuple is consumed - appended, passed on, stored or returned - on every path from the call to a nil-error return of the function (paths on which the value was tested nil/empty excepted).")
 	R.Explain("R02.2", "the commit wrappers (stateDBWrite, stateDBWriteResult, userDBWrite, userDBWriteResult) hand the updates returned by the transaction closure to the broadcast (QueueOrApplyStateUpdate / queueStateUpdate) on every success path, except when the update list is empty.")
 	R.Explain("R02.3", "filter soundness: additions to a snapshot are deferred (queued targetedExists), so an Update.Filter that consults snapshot membership must do it through a pending-aware function (one that also scans State.res for *targetedExists of the same message); no Filter calls snapshot.hasMessage / State.HasMessage directly.")
 	R.Explain("R02.4", "T-GUARDED + shape: QueuedChannel.items is accessed only under cond.L; the only stores are an append at the tail (Enqueue) and a re-slice from index 1 after taking element 0 (pop): FIFO, no loss.")
@@ -195,6 +196,9 @@ func c02(c *Ctx) {
 					for _, r := range *call.Referrers() {
 						if ex, isEx := r.(*ssa.Extract); isEx && ex.Index == i && ex.Referrers() != nil && len(nonDebug(*ex.Referrers())) > 0 {
 							used = true
+							if esc := updatesDroppedOnPath(f, ex); esc.IsValid() {
+								R.Check(false, "R02.1", fmtf("%s|%s#%d|every path", c.name(f), calleeLabel(call), i), P.Pos(call.Pos()), "", "the state updates returned by "+calleeLabel(call)+" reach a success return ("+P.Pos(esc)+") on a path that neither forwards nor returns them: on that path other sessions are never told about the committed change")
+							}
 						}
 					}
 					R.Check(used, "R02.1", fmtf("%s|%s#%d", c.name(f), calleeLabel(call), i), P.Pos(call.Pos()), "returned updates are used", "the state updates returned by "+calleeLabel(call)+" are discarded: other sessions are never told about the committed change")
@@ -729,4 +733,120 @@ func broadcastsParam(fn *ssa.Function) (int, bool) {
 		}
 	}
 	return idx, true
+}
+
+// c02writesAreAnnounced (R02.9): a change of mailbox content in the index has its announcement built next to it.
+func c02writesAreAnnounced(c *Ctx) {
+	P, R := c.P, c.R
+	R.Explain("R02.9", "no silent index change: in gluon's server packages (db implementations excluded) every function that calls db.Transaction.RemoveMessagesFromMailbox also builds the EXPUNGE announcement (NewExpunge) for the other sessions, every function that calls db.Transaction.AddMessagesToMailbox builds the EXISTS announcement (newExists / newExistsStateUpdateWithExists), and every function that calls db.Transaction.DeleteMailboxWithRemoteID builds NewMailboxDeletedStateUpdate - in the function itself or one of its closures.  A direct transaction call elsewhere changes the authoritative mailbox without any session being told: their views never converge.")
+	pairs := map[string][]string{
+		"RemoveMessagesFromMailbox": {"NewExpunge"},
+		"AddMessagesToMailbox":      {"newExists", "newExistsStateUpdateWithExists"},
+		"DeleteMailboxWithRemoteID": {"NewMailboxDeletedStateUpdate"},
+	}
+	counts := map[string]int{}
+	for _, f := range c.productFuncs() {
+		rel := engine.RelPkg(P.OwnPkgPath(f))
+		if strings.HasPrefix(rel, "internal/db_impl") || strings.HasPrefix(rel, "db") || strings.HasPrefix(rel, "connector") || strings.HasPrefix(rel, "tests") {
+			continue
+		}
+		for _, cs := range engine.Calls(f) {
+			cc := cs.Common()
+			if !cc.IsInvoke() || !engine.IsNamed(cc.Value.Type(), "db", "Transaction") {
+				continue
+			}
+			want, ok := pairs[cc.Method.Name()]
+			if !ok {
+				continue
+			}
+			counts[cc.Method.Name()]++
+			top := topFn(f)
+			found := false
+			for _, g := range engine.WithClosures(top) {
+				for _, cs2 := range engine.Calls(g) {
+					if sc := cs2.Common().StaticCallee(); sc != nil {
+						for _, w := range want {
+							if engine.ShortName(sc) == w {
+								found = true
+							}
+						}
+					}
+				}
+			}
+			R.Check(found, "R02.9", c.name(top)+"|tx."+cc.Method.Name()+" announced", P.Pos(cs.Pos()), "the function builds "+strings.Join(want, " / "), "tx."+cc.Method.Name()+" is called in a function that does not build the matching announcement ("+strings.Join(want, " / ")+"): the index changes without the sessions that have the mailbox selected being told")
+		}
+	}
+	R.Min("R02.9", "tx.RemoveMessagesFromMailbox call sites", counts["RemoveMessagesFromMailbox"], 2)
+	R.Min("R02.9", "tx.AddMessagesToMailbox call sites", counts["AddMessagesToMailbox"], 2)
+	R.Min("R02.9", "tx.DeleteMailboxWithRemoteID call sites", counts["DeleteMailboxWithRemoteID"], 2)
+}
+
+// updatesDroppedOnPath: v (a state update or a list of them) has uses, but some path from its definition to a
+// nil-error return of f passes none of them.  Returns the position of such a return.
+func updatesDroppedOnPath(f *ssa.Function, v ssa.Value) token.Pos {
+	def, ok := v.(ssa.Instruction)
+	if !ok || v.Referrers() == nil {
+		return token.NoPos
+	}
+	cut := map[ssa.Instruction]bool{}
+	skip := map[engine.Edge]bool{}
+	for _, r := range *v.Referrers() {
+		switch t := r.(type) {
+		case *ssa.DebugRef:
+		case *ssa.BinOp:
+			// v == nil / v != nil: not consuming a nil value is fine
+			for _, r2 := range *t.Referrers() {
+				if iff, ok := r2.(*ssa.If); ok && (engine.IsNilConst(t.X) || engine.IsNilConst(t.Y)) {
+					nilIx := 0
+					if t.Op == token.NEQ {
+						nilIx = 1
+					}
+					skip[engine.Edge{From: iff.Block(), Succ: nilIx}] = true
+				}
+			}
+		case *ssa.Call:
+			if bi, isBi := t.Call.Value.(*ssa.Builtin); isBi && bi.Name() == "len" {
+				for _, r2 := range *t.Referrers() {
+					cmp, ok := r2.(*ssa.BinOp)
+					if !ok {
+						continue
+					}
+					k, isK := cmp.Y.(*ssa.Const)
+					if !isK || k.Value == nil || k.Value.ExactString() != "0" {
+						continue
+					}
+					for _, r3 := range *cmp.Referrers() {
+						if iff, ok := r3.(*ssa.If); ok {
+							switch cmp.Op {
+							case token.NEQ, token.GTR:
+								skip[engine.Edge{From: iff.Block(), Succ: 1}] = true
+							case token.EQL:
+								skip[engine.Edge{From: iff.Block(), Succ: 0}] = true
+							}
+						}
+					}
+				}
+				continue
+			}
+			cut[t] = true
+		default:
+			cut[r] = true
+		}
+	}
+	if len(cut) == 0 {
+		return token.NoPos
+	}
+	for _, ret := range engine.Returns(f) {
+		lr := engine.LastResult(ret)
+		if lr == nil || !engine.IsNilConst(lr) || lr.Type().String() != "error" {
+			continue
+		}
+		if cut[ret] {
+			continue
+		}
+		if engine.ReachesAvoidingFrom(def.Block(), engine.InstrIndex(def)+1, ret, cut, skip) {
+			return ret.Pos()
+		}
+	}
+	return token.NoPos
 }
